@@ -170,6 +170,12 @@ func (s *seqRT) ruleStack() {
 // loop of the same runtime (flatten/filter shapes): the inner loop runs one
 // non-yielding iteration and ends, the outer loop goes round several times.
 func (s *seqRT) ruleStackNested() {
+	s.ruleStackNestedMode("Normal")
+	// the inner loop left by a break: the enclosing loop's continuation is invoked from inside the inner body
+	s.ruleStackNestedMode("Break")
+}
+
+func (s *seqRT) ruleStackNestedMode(innerEnds string) {
 	c := s.c
 	roles := s.ruleRole()
 	fn := s.w.Func(pathSeq, "For")
@@ -197,11 +203,17 @@ func (s *seqRT) ruleStackNested() {
 		case "cond1":
 			return []Answer{{Ret: []AV{mkBool(count(cc.St, "cond1") < outerIters)}, Label: "outer"}}
 		case "cond2":
+			if innerEnds == "Break" {
+				return []Answer{{Ret: []AV{mkBool(true)}, Label: "inner"}}
+			}
 			// each run of the inner loop: one iteration, then done
 			return []Answer{{Ret: []AV{mkBool(count(cc.St, "cond2")%2 == 0)}, Label: "inner"}}
 		case "body2":
 			if len(cc.Args) != 2 {
 				return nil
+			}
+			if innerEnds == "Break" {
+				return []Answer{{Label: "sync:Break", Invoke: []Invocation{{Fn: cc.Args[1], Args: []AV{roles.byName["Break"], Sym{Name: "v"}}}}}}
 			}
 			return []Answer{{Label: "sync:Normal", Invoke: []Invocation{{Fn: cc.Args[1], Args: []AV{roles.Normal, Sym{Name: "v"}}}}}}
 		}
@@ -247,8 +259,12 @@ func (s *seqRT) ruleStackNested() {
 				growth = fmt.Sprintf("abstract stack heights at the inner body over successive outer iterations: %v", hs)
 			}
 		}
-		for i := 2; i < len(condHs); i++ {
-			if condHs[i] > condHs[i-2] {
+		step := 2
+		if innerEnds == "Break" {
+			step = 1 // one condition call per run
+		}
+		for i := step; i < len(condHs); i++ {
+			if condHs[i] > condHs[i-step] {
 				growth = fmt.Sprintf("abstract stack heights at the inner loop's condition over successive runs of the same loop value: %v", condHs)
 			}
 		}
@@ -258,11 +274,15 @@ func (s *seqRT) ruleStackNested() {
 			}
 		}
 	}
+	construct := "nested loops (inner loop ends, outer loop continues)"
+	if innerEnds == "Break" {
+		construct = "nested loops (inner loop left by a break, outer loop continues)"
+	}
 	if checked < 2 {
-		c.und("SEQ.STACK.HEIGHT", "nested loops (inner loop ends, outer loop continues)", pos, fmt.Sprintf("only %d outer iterations explored", checked))
+		c.und("SEQ.STACK.HEIGHT", construct, pos, fmt.Sprintf("only %d outer iterations explored", checked))
 		return
 	}
-	c.check(growth == "", "SEQ.STACK.HEIGHT", "nested loops (inner loop ends, outer loop continues)", pos,
+	c.check(growth == "", "SEQ.STACK.HEIGHT", construct, pos,
 		fmt.Sprintf("%d successive outer iterations each running a complete non-yielding inner loop: the abstract stack never gets deeper", checked),
 		"with a loop nested in a loop the outer driver re-enters itself on top of the inner loop's frames: stack depth grows with every non-yielding outer iteration; "+growth)
 }
